@@ -20,13 +20,19 @@ More == l <= Len(Trace)
 Mark == TLCSet(1, l') /\ TLCSet(2, viols')
 
 \* function helpers (dynamic domains)
-Put(f, k, v) == [x \in DOMAIN f \cup {k} |-> IF x = k THEN v ELSE f[x]]
+Put(f, k, v) == (k :> v) @@ f     \* (TLC module operators: implemented natively, the left operand wins)
 Get(f, k, d) == IF k \in DOMAIN f THEN f[k] ELSE d
 Empty == <<>>
 
 \* record a failed check (at most 8 are kept)
 Fail(name, info) == IF Len(viols) < 8 THEN Append(viols, [inv |-> name, at |-> l, info |-> info]) ELSE viols
 Check(cond, name, info, vs) == IF cond THEN vs ELSE (IF Len(vs) < 8 THEN Append(vs, [inv |-> name, at |-> l, info |-> info]) ELSE vs)
+
+\* the last step of a validation run: report the collected failures (TLC is run in simulation mode on these
+\* single-path specifications: no fingerprinting, no state storage, linear time)
+FinishWith(v) == /\ ~More /\ l = Len(Trace) + 1
+                 /\ PrintT(<<"TRACE_END", Len(Trace), viols>>)
+                 /\ l' = l + 1 /\ viols' = viols /\ UNCHANGED v
 
 Accepted ==
     IF TLCGet(1) # Len(Trace) + 1
